@@ -26,7 +26,7 @@ const (
 
 // Op is one scripted call (the replay format).
 type Op struct {
-	K     string `json:"k"` // new free sub send fill recv reply wait close closeq
+	K     string `json:"k"` // new free sub send fill recv reply wait close closeq raceq
 	C     int    `json:"c,omitempty"`
 	T     int    `json:"t,omitempty"`
 	O     int    `json:"o,omitempty"` // harness message slot (variable), not the pool object
@@ -35,6 +35,8 @@ type Op struct {
 	Timed bool   `json:"timed,omitempty"`
 	N     int    `json:"n,omitempty"`
 	Plain bool   `json:"plain,omitempty"` // queue.NewMessage instead of client.NewMessage
+	Raw   bool   `json:"raw,omitempty"`   // queue.NewMessage(0, topic, 0, nil): looks like the close sentinel
+	Over  bool   `json:"over,omitempty"`  // close: call it although a Close of this client has not returned
 }
 
 // Scenario is the replayable input.
@@ -44,6 +46,8 @@ type Scenario struct {
 	Lcap     int    `json:"lcap"`
 	NTopics  int    `json:"ntopics"`
 	NClients int    `json:"nclients"`
+	Fresh    int    `json:"fresh,omitempty"`  // further topics (numbers NTopics..) that are never preset
+	Helper   int    `json:"helper,omitempty"` // unused preset topics: they make Queue.Close's locked loop long
 	Ops      []Op   `json:"ops"`
 }
 
@@ -63,7 +67,7 @@ type exec struct {
 	sc      Scenario
 	q       queue.Queue
 	cl      []queue.Client
-	subOf   []int // client -> topic or -1
+	subs    map[int][]int // client -> topics of its effective Subs
 	objs    map[*queue.Message]int
 	nobj    int
 	slots   map[int]*queue.Message // harness variable -> message
@@ -78,16 +82,14 @@ type exec struct {
 	dead    bool // scenario must stop (a call we cannot continue after)
 	nontriv bool
 	leaked  int32
-	sentTo  map[int]int // topic -> messages enqueued
-	taken   map[int]int // topic -> messages the subscriber read from Recv
-	tClosed map[int]bool
+	retry   bool // the race op ended in an interleaving the scripted format cannot express: run again
 }
 
 func topicName(t int) string { return fmt.Sprintf("t%d", t) }
 
 func newExec(sc Scenario) *exec {
 	e := &exec{sc: sc, objs: map[*queue.Message]int{}, slots: map[int]*queue.Message{}, ids: map[int64]int{},
-		closeCh: map[int]chan bool{}, sentTo: map[int]int{}, taken: map[int]int{}, tClosed: map[int]bool{}}
+		closeCh: map[int]chan bool{}, subs: map[int][]int{}}
 	e.q = queue.New("c36")
 	if sc.Hcap > 0 {
 		for t := 0; t < sc.NTopics; t++ {
@@ -96,9 +98,11 @@ func newExec(sc Scenario) *exec {
 			}
 		}
 	}
+	for i := 0; i < sc.Helper; i++ {
+		queue.VerifPresetTopic(e.q, fmt.Sprintf("helper%d", i), 1, 1)
+	}
 	for c := 0; c < sc.NClients; c++ {
 		e.cl = append(e.cl, e.q.Client())
-		e.subOf = append(e.subOf, -1)
 	}
 	return e
 }
@@ -152,7 +156,7 @@ func modeDur(m int) time.Duration {
 
 // lens reads (len high, len low) per topic and len recv per client.
 func (e *exec) lens() ([][2]int, []int) {
-	tl := make([][2]int, e.sc.NTopics)
+	tl := make([][2]int, e.sc.NTopics+e.sc.Fresh)
 	for t := range tl {
 		h, l, _ := queue.VerifLens(e.q, topicName(t))
 		tl[t] = [2]int{h, l}
@@ -173,9 +177,6 @@ func (e *exec) collect(comps *[]string, human *[]string) bool {
 		case r := <-p.ch:
 			*comps = append(*comps, hlib.App("CSend", hlib.N(uint64(p.p)), sresTerm(r)))
 			*human = append(*human, fmt.Sprintf("send#%d->%s", p.p, sresTerm(r)))
-			if r.err == nil && !r.panicked {
-				e.sentTo[p.t]++
-			}
 			got = true
 		default:
 			keep = append(keep, p)
@@ -223,6 +224,12 @@ func allParked() bool {
 		}
 	}
 	return busy <= 1 // the caller itself
+}
+
+// stackHas reports whether some goroutine's stack contains the text.
+func stackHas(text string) bool {
+	n := runtime.Stack(stackBuf, true)
+	return strings.Contains(string(stackBuf[:n]), text)
 }
 
 // quiesce waits until everything is parked (twice in a row, nothing completed in between).
